@@ -3711,8 +3711,13 @@ func (r *JournalReader) Next() (err error) {
 	}
 
 	// Read remaining fields from header.
-	r.nonce = binary.BigEndian.Uint32(hdr[12:])  // cksumInit
-	r.commit = binary.BigEndian.Uint32(hdr[16:]) // dbSize
+	r.nonce = binary.BigEndian.Uint32(hdr[12:]) // cksumInit
+
+	// Only the first header's database size is used, as in SQLite. A later
+	// header may be unsynced and partially written.
+	if r.offset == 0 {
+		r.commit = binary.BigEndian.Uint32(hdr[16:]) // dbSize
+	}
 
 	// Only read sector and page size from first journal header.
 	if r.offset == 0 {
